@@ -403,7 +403,10 @@ def check_measurement_step(ctx, flt, pre, orc, stack, extra, nontrivial, *, fore
     if ctx.resample:
         ref = kf.kf_update(xm, pm, hs, rs, ys, bs)
     else:
-        ref = kf.variant_update(xm, pm, orc["pprop"], hs, rs, ys, bs)
+        # the propagated sigma set carries P- minus Q; taken from the filter's own prior (not from the oracle's memory of
+        # the prediction) so that the step is judged on the state it actually started from
+        pv = pm - sysm.q
+        ref = kf.variant_update(xm, pm, 0.5 * (pv + pv.T), hs, rs, ys, bs)
     m = ref["r_matrix"].shape[0]
     d = np.sqrt(np.diag(pm))
     dy = np.sqrt(np.diag(ref["innov_cvr"]))
@@ -635,6 +638,20 @@ def _tree(ctx, direct, mirror, orc, stacks, seq, depth):
         nontrivial = ctx.resample or len(seq2) >= 2
         try:
             orc2 = _apply_op(ctx, op, d2, m2, dict(orc), stacks, extra, nontrivial)
+        except np.linalg.LinAlgError as exc:
+            # cholesky refuses an estimate covariance that is not positive definite at working precision.  That is the
+            # documented behaviour, and it is reached legitimately when a (near) perfect measurement of an enormous
+            # prior leaves P- - K S K^T within rounding of singular (loss of definiteness beyond the tolerance was
+            # already judged by cov_psd at the update).  Either-way, branch not expanded.  Anything else is a violation.
+            low = np.tril(direct.est_p) + np.tril(direct.est_p, -1).T
+            dd = np.sqrt(np.abs(np.diag(low)))
+            if op == "P" and kf.scaled_min_eig(low, np.where(dd > 0, dd, 1.0)) < 1e-12:
+                ctx.res.either_way += 1
+                ctx.case("sequence", extra, True, nontrivial=False, field="predict_from_numerically_singular_estimate")
+            else:
+                ctx.case("sequence", extra, False, nontrivial=nontrivial, field=f"exception_{type(exc).__name__}",
+                         observed=str(exc)[:200])
+            continue
         except Exception as exc:  # noqa: BLE001
             ctx.case("sequence", extra, False, nontrivial=nontrivial, field=f"exception_{type(exc).__name__}",
                      observed=str(exc)[:200])
